@@ -237,10 +237,19 @@ def rand_graph(rnd, nmin=2, nmax=9, dens=None):
     return n, edges
 
 
+def near_fraction(rnd, M, top=1.0):
+    """a fraction whose product with M is an integer k, or falls within an ulp of one, or a short decimal next to it: where int(M*x) is decided
+    by rounding (real-number floor and float floor agree in all of these; a tolerance or a round() before int() does not)"""
+    import math
+    k = rnd.randint(0, max(1, int(M * top))); q = k / M
+    return max(0.0, rnd.choice([q, math.nextafter(q, -1.0), math.nextafter(q, 9.0), math.nextafter(math.nextafter(q, -1.0), -1.0), round(q, 2), round(q, 3), q - 1e-10, q + 1e-10, q - 1e-12]))
+
+
 def gen_perc(rnd):
     n, edges = rand_graph(rnd, 1, 9)
     M = len(edges)
     T = rnd.choice([0.0, 1.0, 0.5, 0.25, 0.75, 0.125, rnd.random(), (rnd.randrange(M + 1) / M) if M else 0.5])
+    if M and rnd.random() < 0.35: T = min(1.0, near_fraction(rnd, M))
     spec = dict(kind='perc', n=n, edges=edges, T=T, seed=rnd.random(), follow=rnd.random() < 0.5, limit1=rnd.random() < 0.3,
                 labels=rnd.choice(['int', 'int', 'str', 'mixed']))
     if rnd.random() < 0.4 and M:
@@ -333,6 +342,7 @@ def run_perc14(spec):
 def gen_shuf(rnd):
     n, edges = rand_graph(rnd, 4, 10, dens=rnd.choice([0.3, 0.5, 0.7]))
     f = rnd.choice([0.0, 0.1, 0.25, 0.5, 1.0, 1.5, rnd.random()])
+    if edges and rnd.random() < 0.35: f = near_fraction(rnd, len(edges), top=1.5)
     return dict(kind='shuf', n=n, edges=edges, f=f, seed=rnd.random(), sticky=rnd.choice([0.0, 0.0, 0.8, 0.9]), limit1=rnd.random() < 0.3)
 
 
